@@ -101,7 +101,23 @@ fn gen_word(rng: &mut Rng, prev: Option<u16>) -> u16 {
     }
 }
 
+/// Near-valid lines: the right shape with boundary values in every field.
+fn gen_near_valid_line(rng: &mut Rng) -> String {
+    let port = *rng.pick(&[0u32, 1, 2, 0xa, 0xb, 0xc, 0xd, 0xf, 0x10, 0x11, 0x7f, 0x80, 0xff, 0x100]);
+    let val = *rng.pick(&[0u32, 1, 0x7f, 0x80, 0xff, 0x100]);
+    match rng.below(6) {
+        0 | 1 => format!("ioport:{:x}:{:x}", port, val),
+        2 => format!("ioport:{}:{}", port, val),
+        3 => format!("u8:{:x}:{:x}", adv_value(rng), val),
+        4 => format!("u8:{:x}:{:x}", *rng.pick(&[0xfee000u32, 0xfee00a, 0xfee00b, 0xffffd0, 0xffffda, 0xffffdb, 0xffff80, 0xffff82, 0xffff88, 0xfee020, 0xfee026]) , rng.u8()),
+        _ => format!("cmd:{}", rng.pick(&["pause", "start", "stop", "", "Pause", "stop\r"])),
+    }
+}
+
 fn gen_fuzz_line(rng: &mut Rng) -> String {
+    if rng.chance(1, 3) {
+        return gen_near_valid_line(rng);
+    }
     let verbs = ["cmd", "u8", "ioport", "", "sync", "stdout", "ready", "CMD", "u16", "\u{3042}"];
     let nf = rng.below(7) as usize;
     let mut f: Vec<String> = vec![rng.pick(&verbs).to_string()];
